@@ -636,11 +636,29 @@ fn judge_recovery(prop: &str, sc: &RcScript, results: &[OutageResult], logs: &Lo
     let max = sc.backoff.max_attempts;
     for (oi, res) in results.iter().enumerate() {
         // attempts are numbered from 1 after every loss of the connection the client reports
+        // (a success that is lost again within 1.5 virtual seconds was no recovery: the numbering
+        // may then either restart or continue)
         let mut expect = 1u32;
+        let mut alt: Option<u32> = None;
+        let mut last_success: Option<u64> = None;
         for (kind, n, at) in &res.seq {
             match kind {
-                'L' | 'S' => expect = 1,
+                'S' => {
+                    last_success = Some(*at);
+                }
+                'L' => {
+                    match last_success {
+                        Some(s) if *at < s + 1_500 => alt = Some(expect),
+                        _ => alt = None,
+                    }
+                    expect = 1;
+                    last_success = None;
+                }
                 'A' => {
+                    if alt == Some(*n) && *n != expect {
+                        expect = *n;
+                    }
+                    alt = None;
                     if *n != expect {
                         out.violate(prop, "attempt-numbering", &format!("{k}:not-per-outage"), format!("outage {oi}: at {at} ms an attempt was announced as number {n}, it is attempt {expect} since the connection was lost: the budget is not per outage"));
                         break;
@@ -659,14 +677,25 @@ fn judge_recovery(prop: &str, sc: &RcScript, results: &[OutageResult], logs: &Lo
         // expectation
         let (must_recover, must_exhaust) = match res.fault {
             Fault::Close => {
-                // the server is reachable: the first attempt succeeds, except that a replier may be
-                // refused once while the server still tears down the old binding
-                let need = if sc.kind == Kind::Replier { 2 } else { 1 };
-                (max >= need, max == 0)
+                // the server is reachable: the first attempt succeeds. A replier, however, is refused
+                // (and charged an attempt) for as long as the server still holds its old binding:
+                // one refusal while the close is being processed, many if the close datagram was lost
+                if sc.kind == Kind::Replier {
+                    (max >= 2 && sc.net.loss_ppm == 0, max == 0)
+                } else {
+                    (max >= 1, max == 0)
+                }
             }
             Fault::Partition { failed } => {
-                let need = failed + if sc.kind == Kind::Replier { 2 } else { 1 };
-                (max >= need, failed >= max)
+                if sc.kind == Kind::Replier {
+                    // after the heal the server may keep the stale binding for up to ~2.5 s (its own
+                    // idle timer runs from its last received packet): recovery is demanded only if
+                    // the remaining schedule outlasts that
+                    let spare: u128 = ((failed + 1)..=max).map(|n| sc.backoff.law_ms(n)).sum();
+                    (max >= failed + 2 && spare >= 4_000, failed >= max)
+                } else {
+                    (max >= failed + 1, failed >= max)
+                }
             }
             Fault::Restart { .. } => (max >= 3, max == 0),
         };
